@@ -23,6 +23,8 @@ package keystore
 //@   assert-at call Put stored-under-branch-then-index: len(arg1) == 8 && le32(arg1[0:4]) == branch && le32(arg1[4:8]) == index && arg2 == pubKey
 
 //@ func (*AddrManager).nextAddresses
+//@   assert-at store unlockDeriveInfo.managedAddr each-address-of-a-batch-has-a-record-of-its-own: iterfresh(target) && value == managedAddr
+//@   assert-at store unlockDeriveInfo.index record-carries-the-index-the-address-was-derived-at: iterfresh(target) && value == nextIndex - 1
 //@   assert-at call FetchBucket bucket-of-this-keystore: arg1 == a.storage
 //@   assert-at call getChildNum counter-of-this-keystore-and-branch: arg0 == lastresult("FetchBucket") && arg1 == internal
 //@   assert-at call Child#1 branch-key-of-the-account: arg1 == ite(internal, 1, 0)
